@@ -141,7 +141,7 @@ fn init_items() -> SutotonList {
     items.set_item("大きく", "Cresc="); // @ 大きく(音長),(最終値)//音量(EP)をだんだん大きくする
     items.set_item("小さく", "Decresc="); // @ 小さく(音長),(最終値)//音量(EP)をだんだん小さくする
     items.set_item("クレッシェンド", "Cresc="); // @ 大きく(音長),(最終値)//音量(EP)をだんだん大きくする
-    items.set_item("デクレッシェンド", "Cresc="); // @ 小さく(音長),(最終値)//音量(EP)をだんだん小さくする
+    items.set_item("デクレッシェンド", "Decresc="); // @ 小さく(音長),(最終値)//音量(EP)をだんだん小さくする
     items.set_item("音量戻す", "EP(127)"); // @ 音量(EP)を最大値に戻す
     items.set_item("方向左", "P(0)"); // @ ステレオの左から音が出るようにする
     items.set_item("方向左前", "P(32)"); // @ ステレオの左前から音が出るようにする
